@@ -192,10 +192,11 @@ class Tree:
 
 
 def collision_groups(units):
-    """Named units with identical dimension, magnitude and origin-ness (documented limitation)."""
+    """Named units with identical dimension, magnitude, origin-ness and ordering tiebreaker (the
+    documented limitation: nothing orders two such units)."""
     groups = {}
     for u in units:
-        groups.setdefault((model.key(u.dim), model.key(u.mag), u.has_origin), []).append(u.name)
+        groups.setdefault((model.key(u.dim), model.key(u.mag), u.has_origin, u.tiebreak), []).append(u.name)
     gid = {}
     for i, (k, names) in enumerate(groups.items()):
         for n in names:
